@@ -962,10 +962,13 @@ def c07c(chk):
                "write_spectrum formats all values with one call of the formatter, outside any loop (calls: %d, inside a loop: %s)" % (len(fc_), looped_ or "none"))
     # newline after header and body: writeln!
     nl = 0
+    seen_ = []
     for path in (TEXT + "Header::write", TEXT + "write_spectrum"):
         f = chk.fn(path)
-        if f is None:
+        if f is None or any(f is g_ for g_ in seen_):
+            # (the one-line Header::write merged into write_spectrum: both names resolve to one function, counted once)
             continue
+        seen_.append(f)
         for b, p, phs, t in an.format_calls(f):
             if p and p[-1].endswith("\n"):
                 nl += 1
